@@ -168,6 +168,7 @@ static void obligations(int nt, GF real) {
   unsigned long follow = NT_FOLLOW[nt];
   if (nt == NT_P || nt == NT_MOREP || nt == NT_S) follow &= ~(1UL << Token::PROGSEP);     // greedy: a following ';' belongs to the innermost statement sequence
   if (row >= 0 && sp && stub_errors == 0 && cof && in_mask(follow, kind_at(end))) ASSERT(own == 0, "C04: a correct instance of the construct followed by a token of its FOLLOW set is accepted without error");
+  a.clear();     // C02: with --memory-leak-check every node allocated outside the registry of the tree shows up as a leak
   ASSERT(0, "WITNESS: end of obligations reachable");
 }
 
@@ -215,4 +216,49 @@ void harness_expected_end() {
   { int kk = kind_at(end); ASSERT(kk != Token::ID && kk != Token::LOOP && kk != Token::WHILE && kk != Token::GOTO && kk != Token::IF && kk != Token::STOP && kk != Token::PROGRAM && kk != Token::PROGSEP, "C04: after the recovery loop the next token is not a separator, a statement start or PROGRAM"); }
   ASSERT(0, "WITNESS: end of harness_expected_end reachable");
 }
+}
+
+// ---------------------------------------------------------------------------------------------------------------------------------------------
+// The top level: the real Theo::parse with scan / extract_macros / apply_macros replaced by stubs returning arbitrary results and S by its contract.
+// C04: input left over after the start symbol is an error; C11: the macro pass budget is the documented constant and every scan / extraction /
+// expansion error makes the parse incorrect; C15: the file requests are exactly the requested names of the missing-file errors.
+static int g_passes, g_scan_err, g_ext_err, g_app_err, g_req_expected;
+extern "C" ScanResult stub_scan(std::map<FileName, FileContent> files, FileName main) {
+  ScanResult r; g_scan_err = 0; g_req_expected = 0;
+  int k = nondet_int(); ASSUME(k >= 0 && k <= 2);
+  for (int i = 0; i < 2; i++) if (i < k) {
+    int t = nondet_int(); ASSUME(t >= 0 && t <= 10);
+    ParseError e; e.t = (ParseError::Type)t; e.msg = "e"; e.file = "m"; e.line = 1; e.file_request = i == 0 ? "a" : "b";
+    r.errors.push_back(e); g_scan_err++;
+    if (t == ParseError::FILE_NOT_FOUND || t == ParseError::MAIN_FILE_NOT_FOUND) g_req_expected++;
+  }
+  return r;
+}
+extern "C" MacroExtractionResult stub_extract(std::vector<Token> tokens) {
+  MacroExtractionResult r; g_ext_err = 0;
+  if (nondet_bool()) { ParseError e; e.t = ParseError::MACRO_EXTRACT_EXPECT; e.msg = "e"; e.file = "m"; e.line = 1; r.errors.push_back(e); g_ext_err = 1; }
+  return r;
+}
+static std::vector<Token> *g_seq;
+extern "C" MacroApplicationResult stub_apply(std::vector<Token> input, std::vector<MacroDefinition> &defs, unsigned int passes) {
+  MacroApplicationResult r; g_passes = (int)passes; g_app_err = 0;
+  if (nondet_bool()) { ParseError e; e.t = ParseError::MACRO_APPLY_REACHED_MAX_PASSES; e.msg = "e"; e.file = "-"; e.line = -1; r.errors.push_back(e); g_app_err = 1; }
+  int at; sym_window(r.transformed_sequence, at);
+  return r;
+}
+extern "C" void harness_parse_top() {
+  g_first_mask = 0;
+  std::map<FileName, FileContent> files; files["m"] = "x";
+  n_log = 0; stub_errors = 0;
+  ParseResult r = Theo::parse(files, "m");
+  ASSERT(g_passes == 1024, "C11: expansion is run with the documented pass budget (1024)");
+  int upstream = g_scan_err + g_ext_err + g_app_err;
+  ASSERT((int)r.a.errors.size() >= upstream + stub_errors, "C11: every scanner, extraction and expansion error is forwarded into the parse result");
+  ASSERT(r.a.parsed_correctly == (r.a.errors.size() == 0), "C02: the parse is marked correct exactly when no error was recorded");
+  if (upstream > 0) ASSERT(!r.a.parsed_correctly, "C11: an unfinished or faulty macro expansion is never passed on as a correct program");
+  ASSERT((int)r.missing_files.size() == g_req_expected, "C15: the file requests are exactly the names of the missing-file errors of the scanner");
+  // the start symbol consumed [0, end) of the expanded sequence (first log entry); anything left before T_EOF must have been reported
+  if (n_log >= 1 && LOG_NT[0] == NT_S && upstream == 0 && stub_errors == 0 && LOG_END[0] < g_n - 1) ASSERT(!r.a.parsed_correctly, "C04: input that remains after the program is reported as an error");
+  if (n_log == 1 && upstream == 0 && stub_errors == 0 && LOG_END[0] == g_n - 1) ASSERT(r.a.parsed_correctly, "C04: a program that ends at the end-of-file token is accepted");
+  ASSERT(0, "WITNESS: end of harness_parse_top reachable");
 }
